@@ -316,6 +316,8 @@ def special_groups(tier, rng):
                     groups.append(grp)
             for bs in (1, 3, "d"):
                 groups.append([C02.bat_case(fs, m, bs, "all", list(range(len(fs.cols))), "special", verify=opts) for m in MODES])
+            for proj in ("i0", "n0"):
+                groups.append([C02.bat_case(fs, m, 2, proj, list(range(len(fs.cols))), "special", verify=opts) for m in MODES])
             if opts != "d":
                 # other column readers of the same chunks lived on the handle before / are re-created in between
                 n0 = len(fs.rows(0, 0))
@@ -484,6 +486,13 @@ def run(tier):
         elif g[0].line in EXPECT and outs[0] != EXPECT[g[0].line]:
             tally.violation(f"{g[0].kind}: all three modes agree but deliver something else than the file holds (ground truth of "
                             f"the independent writer): got {outs[0][:300]}, file holds {EXPECT[g[0].line][:300]}", {"case": g[0].line})
+        elif g[0].kind == "meta" and not outs[0].endswith(" gx=62:62"):
+            tally.violation("meta: carquet_reader_row_group_metadata accepts a row group index outside the file (expected "
+                            f"ROW_GROUP_NOT_FOUND for -1 and for num_row_groups): ...{outs[0][-40:]}", {"case": g[0].line})
+        elif g[0].kind == "bat" and g[0].line not in EXPECT and outs[0].startswith("OK") and not outs[0].endswith(" E63 L1") \
+                and outs[0].endswith(" L1"):
+            tally.violation(f"bat: the batch stream of a valid file and configuration ends with a status other than END_OF_DATA in "
+                            f"every mode: {outs[0][-60:]}", {"case": g[0].line, "got": outs})
         elif g[0].kind == "bat" and outs[0].startswith("OK") and not outs[0].endswith(" L1"):
             tally.violation("data handed out in a batch changed before the reader was closed", {"case": g[0].line, "got": outs})
     rep.cov["input_distribution"] = dist
